@@ -14,29 +14,35 @@ import sys
 HERE = os.path.dirname(os.path.dirname(os.path.abspath(__file__)))
 
 AVOID = {
-    "C01": "the collection index grids of the coplanar-lines branch, the dtype conversion of the arguments, and the tolerance of the linear-dependence check in _join_meet_duality",
-    "C02": "the np.all(coplanar) test, the LinearDependenceError mask logic in _join_meet_duality, and Tensor.is_zero",
-    "C03": "PolygonTensor.contains, rotation() and Conic.from_tangent",
-    "C04": "TensorCollection.__iter__, the threshold in QuadricTensor.components and the early return of is_coplanar",
-    "C05": "TensorDiagram.add_node, the KroneckerDelta cache and the dimension check of TensorDiagram.add_edge",
-    "C06": "TransformationTensor.inverse, TransformationTensor.__pow__ and TransformationTensor.__apply__",
-    "C07": "TransformationTensor.inverse, PolygonTensor.__apply__ and memoising QuadricTensor.dual",
-    "C08": "translation(), reflection() and Transformation.from_points",
-    "C09": "the plane/plane branch and the equality short-cut of dist, and the dtype handling of _point_dist",
-    "C10": "SubspaceTensor.general_point, is_coplanar and the contains-branch of LineTensor.perpendicular",
-    "C11": "the 3D-lines branch, the a == b shortcut and the collinear-points reduction of crossratio",
-    "C12": "PolygonTensor._normalized_projection, LineTensor.perpendicular and PointLikeTensor._normalize_array",
-    "C13": "Cone.__init__, Ellipse.__init__ and Sphere.__init__",
-    "C14": "the pivot argmax in QuadricTensor.components, QuadricTensor.dual and the plane selection for LineCollections in the 3D branch of QuadricTensor.intersect",
-    "C15": "QuadricTensor.components' pivot, the triple-root shortcut in roots() and the pencil computation in Conic.intersect",
-    "C16": "the 'coplanar &' of PolygonTensor.contains, Triangle.contains and memoising in SegmentTensor.contains",
-    "C17": "Polygon.centroid, PolytopeTensor.__eq__ and PolygonTensor.area",
-    "C18": "PolygonTensor.intersect's LinearDependenceError handler, the skew-segment branch of SegmentTensor.intersect and memoising Polyhedron.faces",
-    "C19": "Tensor._get_index_mapping, Tensor.transpose and Tensor._elementwise_result",
-    "C20": "adjugate, the quadratic branch of roots and null_space",
+    "C01": "the collection index grids of the coplanar-lines branch, the dtype conversion of the arguments, and the tolerance of the linear-dependence check in _join_meet_duality, and the single/collection path switch of the coplanar-lines branch",
+    "C02": "the np.all(coplanar) test, the LinearDependenceError mask logic in _join_meet_duality, and Tensor.is_zero, and a fast path in LineTensor.meet",
+    "C03": "PolygonTensor.contains, rotation() and Conic.from_tangent, and SegmentTensor.contains",
+    "C04": "TensorCollection.__iter__, the threshold in QuadricTensor.components and the early return of is_coplanar, and the early return of the 3D branch of PolygonTensor.contains",
+    "C05": "TensorDiagram.add_node, the KroneckerDelta cache and the dimension check of TensorDiagram.add_edge, and the sign computation of LeviCivitaTensor",
+    "C06": "TransformationTensor.inverse, TransformationTensor.__pow__ and TransformationTensor.__apply__, and Tensor.__apply__",
+    "C07": "TransformationTensor.inverse, PolygonTensor.__apply__ and memoising QuadricTensor.dual, and a fast path in PointLikeTensor.__apply__",
+    "C08": "translation(), reflection() and Transformation.from_points, and Transformation.from_points_and_conics",
+    "C09": "the plane/plane branch and the equality short-cut of dist, and the dtype handling of _point_dist, and the kind dispatch of angle()",
+    "C10": "SubspaceTensor.general_point, is_coplanar and the contains-branch of LineTensor.perpendicular, and PlaneTensor.basis_matrix",
+    "C11": "the 3D-lines branch, the a == b shortcut and the collinear-points reduction of crossratio, and SubspaceTensor.general_point as used by harmonic_set",
+    "C12": "PolygonTensor._normalized_projection, LineTensor.perpendicular and PointLikeTensor._normalize_array, and the KroneckerDelta cache",
+    "C13": "Cone.__init__, Ellipse.__init__ and Sphere.__init__, and Conic.foci",
+    "C14": "the pivot argmax in QuadricTensor.components, QuadricTensor.dual and the plane selection for LineCollections in the 3D branch of QuadricTensor.intersect, and the single-Line path of the 3D branch of QuadricTensor.intersect",
+    "C15": "QuadricTensor.components' pivot, the triple-root shortcut in roots() and the pencil computation in Conic.intersect, and the dispatch on the degenerate operand in Conic.intersect",
+    "C16": "the 'coplanar &' of PolygonTensor.contains, Triangle.contains and memoising in SegmentTensor.contains, and the vertex-ordering step of the ray casting in PolygonTensor.contains",
+    "C17": "Polygon.centroid, PolytopeTensor.__eq__ and PolygonTensor.area, and SegmentTensor.midpoint",
+    "C18": "PolygonTensor.intersect's LinearDependenceError handler, the skew-segment branch of SegmentTensor.intersect and memoising Polyhedron.faces, and the membership filter of the segment branch of PolygonTensor.intersect",
+    "C19": "Tensor._get_index_mapping, Tensor.transpose and Tensor._elementwise_result, and the scalar branch of PointLikeTensor.__mul__/__truediv__",
+    "C20": "adjugate, the quadratic branch of roots and null_space, and is_multiple",
 }
 
 EMPHASIS = {
+    5: ("Prefer one of these kinds of change: (a) an error path - the wrong exception type, an exception swallowed or raised for a valid input, a mask / "
+        "dependent_values array with the wrong shape or content; (b) a tolerance, threshold or comparison (<= vs <, abs missing, relative vs absolute, "
+        "isclose arguments swapped) that only matters for inputs close to but clearly on one side of a boundary, or for large / small but exactly "
+        "representable coordinates; (c) dtype handling - integer-typed or complex input arrays, integer division, a cast that truncates; (d) handling of "
+        "collections: several collection axes, an axis of length one, a single object broadcast against a collection, collections of collections "
+        "(polygon collections), the order of axes in the result. Do NOT use memoisation / caching of properties, and do not mutate an argument in place."),
     4: ("Prefer a change whose effect is a wrong VALUE or a wrong branch for a boundary situation that is still a valid input: an exact tie, a zero "
         "coordinate, a coordinate-axis-parallel or origin-incident object, coincident or equal arguments, a collection of length one or with an axis of "
         "length one, an empty or single-element result list, the last element of a collection, a negative or non-unit homogeneous representative, a "
